@@ -226,6 +226,23 @@ fn verify(cx: &mut Ctx, archive: &str, privkey: Option<&str>, files: &Files, tag
         if n_found != files.len() {
             return fail("extract_creates_extra_files", format!("mlar {a:?}: {n_found} files for {} members", files.len()));
         }
+        // extraction again into the same directory, whose files have meanwhile grown: exact bytes again
+        for n in files.keys() {
+            use std::io::Write;
+            if let Ok(mut f) = std::fs::OpenOptions::new().append(true).open(cx.dir.join(&out).join(n)) {
+                let _ = f.write_all(&b"stale bytes of an earlier extraction ".repeat(8));
+            }
+        }
+        let o = cx.run(&a);
+        if !o.status.success() {
+            return fail("extract_fails", format!("mlar {a:?} (second time into the same directory): status {:?} stderr {:?}", o.status.code(), tail(&o.stderr)));
+        }
+        for (n, d) in files {
+            match std::fs::read(cx.dir.join(&out).join(n)) {
+                Ok(got) if got == *d => {}
+                other => return fail("extracted_file_differs", format!("mlar {a:?} into a directory already holding longer files: {n:?} -> {:?} (expected {} bytes)", other.map(|g| g.len()), d.len())),
+            }
+        }
         let _ = std::fs::remove_dir_all(cx.dir.join(&out));
     }
     // extract one listed name
@@ -588,7 +605,7 @@ pub fn run(started: Instant) -> i32 {
         rep,
         Meta {
             level: "exploration",
-            rule: "7 generated file trees (empty files, nested directories, unicode and spaces, sizes around the chunk and block sizes, path lengths 99/100/101/156/260 bytes) x layer options {none, compress, encrypt, both (options in either order), default} x levels x key sets (1 or 2 recipients, read with either; with 2 recipients the readers get two candidate keys, a non-recipient first), with the mlar binary built from the working tree (scaled constants; plus trees with files of 128 KiB+-1 and 4 MiB+-1 on the production-constant binary). Pipeline per job: keygen; create (file list or directory recursion; also to stdout and with the file list on stdin); then info and info -v (format version, layer flags, recipients, compression rate against an independent decode), list, list -vv (humansize + SHA-256), cat of every file and of all files with --glob '*' (sorted order), extract (linear and --glob '*', no extra files), extract of one name, to-tar (file and stdout; entries parsed with the tar crate); extract into the default directory; repair with --allow-unauthenticated-data; convert to each other layer/key choice and repair of the intact archive, each followed by the same readers; create|convert|repair chains; negative runs (wrong key, missing key, key for an unencrypted archive) for list/extract/cat/to-tar/convert(/repair) must exit non-zero and leave no output content. transitions = mlar invocations".to_string(),
+            rule: "7 generated file trees (empty files, nested directories, unicode and spaces, sizes around the chunk and block sizes, path lengths 99/100/101/156/260 bytes) x layer options {none, compress, encrypt, both (options in either order), default} x levels x key sets (1 or 2 recipients, read with either; with 2 recipients the readers get two candidate keys, a non-recipient first), with the mlar binary built from the working tree (scaled constants; plus trees with files of 128 KiB+-1 and 4 MiB+-1 on the production-constant binary). Pipeline per job: keygen; create (file list or directory recursion; also to stdout and with the file list on stdin); then info and info -v (format version, layer flags, recipients, compression rate against an independent decode), list, list -vv (humansize + SHA-256), cat of every file and of all files with --glob '*' (sorted order), extract (linear and --glob '*', no extra files; then again into the same directory whose files were made longer), extract of one name, to-tar (file and stdout; entries parsed with the tar crate); extract into the default directory; repair with --allow-unauthenticated-data; convert to each other layer/key choice and repair of the intact archive, each followed by the same readers; create|convert|repair chains; negative runs (wrong key, missing key, key for an unencrypted archive) for list/extract/cat/to-tar/convert(/repair) must exit non-zero and leave no output content. transitions = mlar invocations".to_string(),
             exhaustive: true,
             bounds: json!({"jobs": js.len()}),
             assumptions: vec!["human-readable sizes are formatted with the same humansize crate as the tool".to_string()],
